@@ -24,6 +24,7 @@ func c07Scenarios(tier string) []*Scenario {
 		{cached: true, shards: 1, loop: true},
 		{cached: true, shards: 1, noReacquire: true},
 		{cached: false, shards: 1, noReacquire: true},
+		{cached: true, shards: 1, twoApps: true},
 	}
 	if tier == "thorough" {
 		vs = append(vs,
@@ -31,7 +32,6 @@ func c07Scenarios(tier string) []*Scenario {
 			variant{cached: true, shards: 2, sub: true},
 			variant{cached: false, shards: 1, sub: true, twice: true},
 			variant{cached: true, shards: 1, sanitize: true, loop: true},
-			variant{cached: true, shards: 1, twoApps: true},
 			variant{cached: false, shards: 2, twoApps: true, sanitize: true},
 		)
 	}
